@@ -64,3 +64,77 @@ Print Assumptions C09_single_check_exact.
 Print Assumptions C09_single_check_tight.
 Print Assumptions C09_mirror.
 Print Assumptions C09_sound_end_to_end.
+
+(* ------------------------------------------------------------------------------------------------------------
+   Extension (second round): exactness w.r.t. the LITERAL reading (Lemmas/ExactInstances.v).  `Lit lit f b` = some literal
+   accepting path through block b admits the value: comparisons of the governed field against constants read exactly
+   (`lit`), every other condition free; no domain, solver or fuel appears in it (Spec/Literal.v; the backward pass ignoring
+   edge constraints, known finding D12, is reflected there). *)
+From Coq Require Import List String NArith ZArith Bool Arith.
+From Tealer Require Import Tables Leaves LeafPrelude Syntax Parse Cfg StackAst Keys Analysis Domains Detect Literal GraphWf ExecLemmas LeafLemmas ExactLemmas ExactInstances.
+
+(* exact bound: a fee is within the reported bound iff some literal accepting path admits it *)
+Theorem C09_exact :
+  forall (f : func) (fam : keyfam) (bc : list (nat * feeval)) (fuel : nat) (lo : list (nat * feeval)) (x : Z),
+       graph_wf f = true ->
+       (0 < x <= MAX_UINT64z)%Z ->
+       init_constraints feeval fee_universal_set fee_null_set fee_union fee_intersection (fee_single (fn_intcs f) fam) f = Some bc ->
+       solve feeval feeval_eqb fee_universal_set fee_null_set fee_union fee_intersection (fee_single (fn_intcs f) fam) f fuel bc = Done lo ->
+       forall b : nat, (exists v : feeval, lookup feeval lo b = Some v /\ fee_gamma v x) <-> Lit (fee_lit (fn_intcs f) fam x) f b.
+Proof. exact @C09_result_exact. Qed.
+
+(* a block is credited with a bound at or below 272000 only if no literal accepting path through it admits a larger fee *)
+Theorem C09_credit_justified :
+  forall (f : func) (fam : keyfam) (bc : list (nat * feeval)) (fuel : nat) (lo : list (nat * feeval)) (b : nat) (v : feeval),
+       graph_wf f = true ->
+       init_constraints feeval fee_universal_set fee_null_set fee_union fee_intersection (fee_single (fn_intcs f) fam) f = Some bc ->
+       solve feeval feeval_eqb fee_universal_set fee_null_set fee_union fee_intersection (fee_single (fn_intcs f) fam) f fuel bc = Done lo ->
+       lookup feeval lo b = Some v ->
+       fee_credited v = true -> forall x : Z, (MAX_TRANSACTION_COSTz < x <= MAX_UINT64z)%Z -> ~ Lit (fee_lit (fn_intcs f) fam x) f b.
+Proof. exact @C09_credit_justified. Qed.
+
+(* ... hence only if a comparison of Fee constrains every accepting path through it (no accepting path made of fee-free conditions only) *)
+Theorem C09_credit_needs_fee_comparison :
+  forall (f : func) (fam : keyfam) (bc : list (nat * feeval)) (fuel : nat) (lo : list (nat * feeval)) (b : nat) (v : feeval),
+       graph_wf f = true ->
+       init_constraints feeval fee_universal_set fee_null_set fee_union fee_intersection (fee_single (fn_intcs f) fam) f = Some bc ->
+       solve feeval feeval_eqb fee_universal_set fee_null_set fee_union fee_intersection (fee_single (fn_intcs f) fam) f fuel bc = Done lo ->
+       lookup feeval lo b = Some v -> fee_credited v = true -> ~ LiveOut f (okb_nofee f fam) (oke_nofee f fam) b.
+Proof. exact @C09_credit_needs_fee_comparison. Qed.
+
+Print Assumptions C09_exact.
+Print Assumptions C09_credit_justified.
+Print Assumptions C09_credit_needs_fee_comparison.
+
+(* ------------------------------------------------------------------------------------------------------------
+   Extension (second round): the executions the theorems speak about are derived from a CFG-FREE, instruction-level
+   concrete semantics (Spec/InsSem.v: program counter, return stack, data stack; data-determined bz/bnz), not defined on
+   tealer's blocks: Lemmas/InsSemLemmas.v *)
+From Coq Require Import List String NArith ZArith Bool Arith.
+From Tealer Require Import Tables Leaves LeafPrelude Syntax Parse Cfg StackAst Keys Analysis Domains Detect Runs Eval Exec InsExec InsSem WalkLemmas ExecLemmas GraphWf NoMiss InsSemLemmas.
+
+(* END TO END at instruction level: at EVERY configuration (pc, return stack, data stack) of a concrete approving execution the fee is within the bound reported for the block containing pc *)
+Theorem C09_sound_instruction_level :
+  forall (e : env) (sem : opsem) (p : prog) (t : teal) (fuel : nat) (res0 : fn_result) (fam : keyfam) (r : list (nat * feeval)) 
+         (tx : N) (fee : Z) (tr : list dconfig),
+       parse_teal p = Ok t ->
+       sem_ok e sem ->
+       env_ok e ->
+       fn_intcs (whole_function t) = e_intcs e ->
+       graph_ok (whole_function t) ->
+       run_all (whole_function t) fuel = Done res0 ->
+       In (fam, r) (r_fees res0) ->
+       key_txn e fam = Some tx ->
+       e_field e tx "Fee" = VInt fee ->
+       (0 <= fee <= MAX_UINT64z)%Z ->
+       fee_leaves_ok (whole_function t) fam ->
+       match fam with
+       | KAtIndex _ => fee_leaves_ok (whole_function t) KSelf /\ int_leaves_ok (whole_function t) true /\ int_leaves_ok (whole_function t) false
+       | _ => True
+       end ->
+       IAccepts e sem p tr ->
+       forall (pc : nat) (st : list nat) (cs : list cval),
+       In (pc, st, cs) tr -> exists v : feeval, lookup feeval r (pc_block t pc) = Some v /\ LeafLemmas.fee_gamma v fee.
+Proof. exact @run_all_fee_sound_ins. Qed.
+
+Print Assumptions C09_sound_instruction_level.
